@@ -2,6 +2,13 @@ package main
 
 func init() {
 	property(&Property{
+		ID:    "C14",
+		Rules: []string{"MD-GATE-OUT", "MD-GATE-IN", "MD-RESERVED-TABLE", "BIN-PADDING", "IDENT-BRANCH", "TRAILER-PHASE", "STS-ROUTING"},
+		Decides: "Decides md.",
+		NotDecided: "bytes.",
+		Assumptions: commonAssumptions,
+	})
+	property(&Property{
 		ID:    "C18",
 		Rules: []string{"STATS-PAIR", "STATS-ERR", "STATS-ORDER", "STATS-PURE", "IC-ONCE", "IC-PASSTHRU", "ROLE-AGREE"},
 		Decides: "Decides stats.",
